@@ -1,5 +1,5 @@
 SPECIFICATION GenSpec
-CONSTANTS MaxOps = 5 TouchMem = 1
+CONSTANTS MaxOps = 5 RawOps = 5 TouchMem = 1
   Shapes <- FileShapesT
   Datas <- DatasFileT
   Ks <- KsQ
